@@ -37,7 +37,7 @@ struct AddHist {
 
 inline bytes mutate_key_from(const bytes &L, const KeyUniverse &u) {
   auto sym = [&]() { return (char)u.alphabet[(size_t)pick(0, (int)u.alphabet.size() - 1)]; };
-  switch (weighted({26, 18, 10, 8, 10, 6, 12, 10})) {
+  switch (weighted({26, 18, 10, 8, 10, 6, 12, 10, 6, 6})) {
     case 0: {  // grow: L + suffix (accepted)
       bytes k = L;
       int n = pick(1, 3);
@@ -71,8 +71,25 @@ inline bytes mutate_key_from(const bytes &L, const KeyUniverse &u) {
       if (chance(50)) k.resize(p + 1);
       return k;
     }
-    default: {  // successor: L . 00
+    case 7: {  // successor: L . 00
       return key_succ(L);
+    }
+    case 8: {  // L followed by ff and one more symbol (accepted): sets up a carry for the next add
+      bytes k = L;
+      k.push_back((char)0xff);
+      if (chance(60)) k.push_back(sym());
+      return k;
+    }
+    default: {  // "carry": L = P c ff ...  ->  P (c+1) 00   (accepted when c < ff; exactly two bytes after the common prefix)
+      if (L.size() < 2) return key_succ(L);
+      size_t p = (size_t)pick(0, (int)L.size() - 2);
+      // prefer a position that is followed by ff
+      for (size_t q = 0; q + 1 < L.size(); q++)
+        if ((unsigned char)L[q + 1] == 0xff && (unsigned char)L[q] != 0xff && chance(60)) p = q;
+      bytes k = L.substr(0, p);
+      k.push_back((char)((unsigned char)L[p] + 1));
+      k.push_back('\0');
+      return k;
     }
   }
 }
